@@ -461,3 +461,41 @@ func ZZDisambiguate() {
 	rt.Assert("c07-text-iff-lowercase", txt == rt.And(first >= 'a', first <= 'z'))
 	rt.Assert("c07-peek-consumes-nothing", rd.Buffered() == 4)
 }
+
+// ZZTextLongLine (C07): a text get whose command line is longer than the connection's 4096-byte
+// read buffer decodes to one request with every key, consuming exactly its bytes; the request
+// after it decodes normally.
+func ZZTextLongLine() {
+	extra := rt.Param("extra", 0) // line length = 4096 + extra - few
+	var keys [][]byte
+	line := []byte("get")
+	i := 0
+	for len(line) < 4090+extra {
+		k := []byte{'k', byte('a' + i%26), byte('a' + (i/26)%26), byte('0' + i%10), 'x'}
+		if i%97 == 0 {
+			sym := textKey("sym"+string(rune('a'+i/97)), 1)
+			k[4] = sym[0]
+		}
+		keys = append(keys, k)
+		line = append(append(line, ' '), k...)
+		i++
+	}
+	line = append(line, '\r', '\n')
+	b := textIntent("b.", tSet, 1, 1, 1)
+	stream := append(append([]byte(nil), line...), b.Bytes...)
+	cl := &Client{In: stream, EOF: false}
+	if c := rt.Choice("cut", 3); c > 0 {
+		cl.Cuts = []int{[]int{0, 4096, len(line) - 1}[c]}
+	}
+	rd := bufio.NewReader(cl)
+	ps := textprot.NewTextParser(rd)
+	r1, t1, _, e1 := ps.Parse()
+	rt.Reach("first-parsed")
+	a := &Intent{Type: common.RequestGet, Keys: keys}
+	checkDecoded("c07-text-long", a, r1, t1, e1, true)
+	rt.Assert("c07-text-consumed-exactly", cl.Consumed()-rd.Buffered() == len(line))
+	r2, t2, _, e2 := ps.Parse()
+	rt.Reach("second-parsed")
+	checkDecoded("c07-text", b, r2, t2, e2, true)
+	rt.Assert("c07-text-consumed-all", cl.Consumed() == len(stream) && rd.Buffered() == 0)
+}
